@@ -54,11 +54,15 @@ def r2(fx):
             for nd in sorted(needs):
                 for nseg in (1, 2):
                     segs = SegmentsModel([SegModel(md['byte'], None)] * nseg, blwo=lambda ver, e, is_sa=False, nd=nd: nd)
+                    eci_flag, sa_flag = (nd % 2 == 0), (nd % 3 == 0 and v >= 1)
                     try:
-                        got = f(rv, None if req is None else lv[req], segs, False, False)
+                        got = f(rv, None if req is None else lv[req], segs, eci_flag, sa_flag)
                         got = inv_l.get(got, got)
                     except PyRaise as e:
                         got = f'raises {e.name}'
+                    # the length is measured for this version with the caller's eci / is_sa (the measure of the version search)
+                    if any(c != (rv, eci_flag, sa_flag) for c in segs.blwo_calls) and bad is None:
+                        bad = (nd, nseg, f'length measured with (version, eci, is_sa) = {segs.blwo_calls[0]}', f'{(rv, eci_flag, sa_flag)}')
                     if req is None or nseg > 1:
                         want = req
                     else:
@@ -156,6 +160,13 @@ def r6(fx):
     f = make_callable(fx.forest, 'encoder', 'normalize_errorlevel', it)
     ok = all(f(x, accept_none=True) == lv[x.upper()] for x in ('l', 'L', 'm', 'M', 'q', 'Q', 'h', 'H')) and f(None, accept_none=True) is None
     yield ob('normalize_errorlevel maps letters (any case) to the level constants', ok, ne, got=ok, want=True)
+
+
+@rule('C05', 'R8', 100, 'the measure used for boosting is the number of bits written (ECI header only where one is written)')
+def r8(fx):
+    for o in p04.sized_equals_written(fx):
+        if 'eci=True' in o.key or 'hanzi' in o.key:
+            yield o
 
 
 @rule('C05', 'R7', 12, 'public factories forward error / boost_error unchanged')
